@@ -112,56 +112,201 @@ Section Peers.
   Lemma NoA_table b : table_ok ct b NoA.
   Proof. apply scalar_table_ok. exact Hscalar. Qed.
 
-  (* obj.a = <scalar>, nothing invalidated by a: only allocation, then at most one write to the receiver *)
+  (* ---------- in-place writes: only allocation, then at most one write to the receiver ---------- *)
+  (* relative to a base heap h0 of size b: the final state is a state s1 reached by allocation
+     only, or s1 with cell l rewritten to a dictionary whose references are old references of
+     that dictionary or cells allocated by the call *)
+  Definition shape_from (b : nat) (h0 : list obj) (l : loc) (s' : state) : Prop :=
+    exists s1, sinv b NoA NoW h0 s1 /\
+      (s' = s1 \/ exists c d d', nth_error (heap s1) l = Some (OInst c d) /\ s' = upd s1 l (OInst c d') /\
+                    forall y, In y (vrefs (map snd d')) -> b <= y \/ In y (vrefs (map snd d))).
+  Definition inplace_shape (l : loc) (s s' : state) : Prop := shape_from (length (heap s)) (heap s) l s'.
+
+  Lemma vrefs_assoc_del a d y : In y (vrefs (map snd (assoc_del a d))) -> In y (vrefs (map snd d)).
+  Proof.
+    unfold vrefs, assoc_del. intro H. apply in_flat_map in H. destruct H as [x [Hx Hy]].
+    apply in_map_iff in Hx. destruct Hx as [p [E Hin]]. apply filter_In in Hin. destruct Hin as [Hin _].
+    apply in_flat_map. exists x. split; auto. apply in_map_iff. exists p. auto.
+  Qed.
+
+  Section Shapes.
+    Variable rec : call -> M val.
+    Variables (b : nat) (h0 : list obj).
+    Hypothesis E1 : forall k, call_ok ct b NoA NoW k -> sep b NoA NoW h0 (rec k) (post b NoA k).
+
+    Lemma old_cell s l o : sinv b NoA NoW h0 s -> l < b -> nth_error h0 l = Some o -> nth_error (heap s) l = Some o.
+    Proof. intros (_ & Old & _) Hl Hn. destruct (Old l Hl) as [[]|E]. congruence. Qed.
+
+    (* value <- M1 (allocation only) ;; mutate_attr(l, a, value, inplace) *)
+    Lemma prep_write_shape l a c d k (M1 : M val) tc force skip s r s' :
+      sinv b NoA NoW h0 s -> l < b -> nth_error h0 l = Some (OInst c d) -> lookup_cls ct c = Some k ->
+      no_dependants k a -> sep b NoA NoW h0 M1 (okv b NoA) ->
+      (v <- M1 ;; mutate_attr ct rec l a v true tc force skip) s = (r, s') ->
+      shape_from b h0 l s'.
+    Proof.
+      intros I0 Hlb Hl Hc Hnd Hsep Hrun. destruct (Hsep s I0) as [I1 F1]. unfold bind in Hrun.
+      destruct (M1 s) as [[value|e] s1] eqn:E; simpl in I1, F1.
+      2:{ exists s1. split; [exact I1|left]. inversion Hrun; auto. }
+      exists s1. split; [exact I1|].
+      assert (Hl1 := old_cell s1 l _ I1 Hlb Hl).
+      destruct (is_sentinel value) eqn:Es.
+      { left. unfold mutate_attr in Hrun. rewrite Es in Hrun. inversion Hrun; auto. }
+      destruct (mutate_attr_inplace_cases ct rec l a value tc force skip s1 c d k Hl1 Hc (no_dnc c k Hc) Hnd)
+        as [[e E2]|[r2 [s2 E2]]].
+      - left. rewrite E2 in Hrun. inversion Hrun; auto.
+      - right. rewrite E2 in Hrun. inversion Hrun; subst r s'.
+        destruct (mutate_attr_inplace_exact ct rec l a value tc force skip s1 c d k r2 s2 Hl1 Hc (no_dnc c k Hc)
+                    Es Hnd E2) as [_ ->].
+        exists c, d, (assoc_set a value d). split; [exact Hl1|]. split; [reflexivity|].
+        intros y Hy. destruct (vrefs_assoc_set a value d y Hy) as [->|Hd]; [|right; exact Hd].
+        destruct F1 as [H|[]]. left; exact H.
+    Qed.
+
+    (* object.__delattr__, then the (empty) invalidation *)
+    Lemma del_tail_shape l a c d k (skip : bool) s r s' :
+      sinv b NoA NoW h0 s -> l < b -> nth_error h0 l = Some (OInst c d) -> lookup_cls ct c = Some k ->
+      no_dependants k a ->
+      (raw_delattr l a ;;; (if skip then ret tt else invalidate_attrs ct rec l a) ;;; ret VNone) s = (r, s') ->
+      shape_from b h0 l s'.
+    Proof.
+      intros I0 Hlb Hl Hc Hnd Hrun. exists s. split; [exact I0|].
+      assert (Hl1 := old_cell s l _ I0 Hlb Hl).
+      unfold raw_delattr in Hrun. unfold bind at 1 2 in Hrun. rewrite (read_inst_at l s c d Hl1) in Hrun. cbn [fst snd] in Hrun.
+      destruct (assoc a d); [|left; inversion Hrun; auto].
+      unfold write in Hrun. assert (l <? length (heap s) = true) as Hlt by (apply Nat.ltb_lt; apply nth_error_Some; congruence).
+      rewrite Hlt in Hrun.
+      change (mkst (set_nth l (OInst c (assoc_del a d)) (heap s)) (ncalls s) (fail_at s))
+        with (upd s l (OInst c (assoc_del a d))) in Hrun.
+      assert (Hl' : nth_error (heap (upd s l (OInst c (assoc_del a d)))) l = Some (OInst c (assoc_del a d))).
+      { unfold upd. simpl. apply nth_error_set_nth_same. apply nth_error_Some. congruence. }
+      right. exists c, d, (assoc_del a d). split; [exact Hl1|]. split.
+      - destruct skip.
+        + cbn in Hrun. inversion Hrun; auto.
+        + unfold bind in Hrun. rewrite (invalidate_noop ct rec l a _ c _ k Hl' Hc Hnd) in Hrun. inversion Hrun; auto.
+      - intros y Hy. right. eapply vrefs_assoc_del; eauto.
+    Qed.
+  End Shapes.
+
+  Lemma exec_sep39 b h0 :
+    forall k, call_ok ct b NoA NoW k -> sep b NoA NoW h0 (exec ct 39 k) (post b NoA k).
+  Proof. exact (proj1 (exec_sep ct no_dnc wf_owner b NoA NoW h0 (NoA_closed' b h0) (NoA_table b) (NoA_dnc' b h0) 39)). Qed.
+  Lemma exec_sepX b h0 :
+    forall k, call_ok ct b NoA NoW k -> sep b NoA NoW h0 (exec ct XFUEL k) (post b NoA k).
+  Proof. exact (proj1 (exec_sep ct no_dnc wf_owner b NoA NoW h0 (NoA_closed' b h0) (NoA_table b) (NoA_dnc' b h0) XFUEL)). Qed.
+
+  Lemma shape_refl l s : inplace_shape l s s.
+  Proof. exists s. split; [apply sinv_start; reflexivity|left; reflexivity]. Qed.
+
+  (* obj.a = <scalar> *)
   Lemma setattr_inplace_shape l a v s r s' :
     val_nonref v -> (forall k, In k ct -> no_dependants k a) ->
-    exec ct XFUEL (KSetAttr l a v false false) s = (r, s') ->
-    exists s1, sinv (length (heap s)) NoA NoW (heap s) s1 /\
-      (s' = s1 \/ exists c d value, nth_error (heap s1) l = Some (OInst c d) /\
-                                    okv (length (heap s)) NoA value /\
-                                    s' = upd s1 l (OInst c (assoc_set a value d))).
+    exec ct XFUEL (KSetAttr l a v false false) s = (r, s') -> inplace_shape l s s'.
   Proof.
     intros Hv Hnd Hrun. rewrite exec_set_unfold in Hrun. set (rec := exec ct 39) in *.
     set (h0 := heap s). set (b := length h0).
     assert (I0 : sinv b NoA NoW h0 s) by (apply sinv_start; reflexivity).
     unfold setattr_ in Hrun.
     destruct (nth_error (heap s) l) as [o|] eqn:Hl.
-    2:{ exists s. split; [exact I0|left]. unfold read_inst, bind, read in Hrun. rewrite Hl in Hrun. inversion Hrun; auto. }
+    2:{ unfold read_inst, bind, read in Hrun. rewrite Hl in Hrun. inversion Hrun; subst. apply shape_refl. }
     destruct o as [| | |c d];
-      try (exists s; split; [exact I0|left]; unfold read_inst, bind, read in Hrun; rewrite Hl in Hrun; inversion Hrun; auto; fail).
+      try (unfold read_inst, bind, read in Hrun; rewrite Hl in Hrun; inversion Hrun; subst; apply shape_refl).
     rewrite (bind_ok _ _ _ _ _ (read_inst_at l s c d Hl)) in Hrun. cbn [fst snd] in Hrun.
     destruct (lookup_cls ct c) as [k|] eqn:Hc.
-    2:{ exists s. split; [exact I0|left]. unfold cls_of, bind in Hrun. rewrite Hc in Hrun. inversion Hrun; auto. }
+    2:{ unfold cls_of, bind in Hrun. rewrite Hc in Hrun. inversion Hrun; subst. apply shape_refl. }
     rewrite (bind_ok _ _ _ _ _ (cls_of_at ct s c k Hc)) in Hrun.
-    destruct (exec_sep ct no_dnc wf_owner b NoA NoW h0 (NoA_closed' b h0) (NoA_table b) (NoA_dnc' b h0) 39) as [E1 _].
-    fold rec in E1.
-    assert (Hsep : sep b NoA NoW h0
-                     (match lookup_attr k a with
-                      | Some sp => prepare_attr_value ct rec sp l v None
-                      | None => ret v end) (okv b NoA)).
-    { destruct (lookup_attr k a) as [sp|] eqn:Ea.
-      - apply (prepare_attr_value_sep ct b NoA NoW h0 (NoA_closed' b h0) rec E1 sp l v None);
-          [eapply lookup_attr_ok; eauto using NoA_table|now apply nonref_okv|exact I].
-      - apply sep_ret. now apply nonref_okv. }
-    destruct (Hsep s I0) as [I1 F1]. unfold bind in Hrun.
-    destruct ((match lookup_attr k a with
-               | Some sp => prepare_attr_value ct rec sp l v None
-               | None => ret v end) s) as [[value|e] s1] eqn:E; simpl in I1, F1.
-    2:{ exists s1. split; [exact I1|left]. inversion Hrun; auto. }
-    exists s1. split; [exact I1|].
-    assert (Hlb : l < b) by (apply nth_error_Some; unfold h0; congruence).
-    assert (Hl1 : nth_error (heap s1) l = Some (OInst c d)).
-    { destruct I1 as (_ & Old & _). destruct (Old l Hlb) as [[]|E']. rewrite E'. exact Hl. }
-    destruct (is_sentinel value) eqn:Es.
-    { left. unfold mutate_attr in Hrun. rewrite Es in Hrun. inversion Hrun; auto. }
     destruct (lookup_cls_In _ _ _ Hc) as [Hkin _].
-    destruct (mutate_attr_inplace_cases ct rec l a value true false false s1 c d k Hl1 Hc (no_dnc c k Hc)
-                (Hnd k Hkin)) as [[e E2]|[r2 [s2 E2]]].
-    - left. rewrite E2 in Hrun. inversion Hrun; auto.
-    - right. rewrite E2 in Hrun. inversion Hrun; subst r s'.
-      destruct (mutate_attr_inplace_exact ct rec l a value true false false s1 c d k r2 s2 Hl1 Hc (no_dnc c k Hc)
-                  Es (Hnd k Hkin) E2) as [_ ->].
-      exists c, d, value. auto.
+    eapply (prep_write_shape rec b h0 l a c d k); eauto.
+    - apply nth_error_Some. unfold h0. congruence.
+    - destruct (lookup_attr k a) as [sp|] eqn:Ea.
+      + apply (prepare_attr_value_sep ct b NoA NoW h0 (NoA_closed' b h0) rec (exec_sep39 b h0) sp l v None);
+          [eapply lookup_attr_ok; eauto using NoA_table|now apply nonref_okv|exact I].
+      + apply sep_ret. now apply nonref_okv.
+  Qed.
+
+  (* del obj.a *)
+  Lemma delattr_inplace_shape l a s r s' :
+    (forall k, In k ct -> no_dependants k a) ->
+    exec ct XFUEL (KDelAttr l a false false) s = (r, s') -> inplace_shape l s s'.
+  Proof.
+    intros Hnd Hrun. rewrite exec_del_unfold in Hrun. set (rec := exec ct 39) in *.
+    set (h0 := heap s). set (b := length h0).
+    assert (I0 : sinv b NoA NoW h0 s) by (apply sinv_start; reflexivity).
+    unfold delattr_ in Hrun.
+    destruct (nth_error (heap s) l) as [o|] eqn:Hl.
+    2:{ unfold read_inst, bind, read in Hrun. rewrite Hl in Hrun. inversion Hrun; subst. apply shape_refl. }
+    destruct o as [| | |c d];
+      try (unfold read_inst, bind, read in Hrun; rewrite Hl in Hrun; inversion Hrun; subst; apply shape_refl).
+    rewrite (bind_ok _ _ _ _ _ (read_inst_at l s c d Hl)) in Hrun. cbn [fst snd] in Hrun.
+    destruct (lookup_cls ct c) as [k|] eqn:Hc.
+    2:{ unfold cls_of, bind in Hrun. rewrite Hc in Hrun. inversion Hrun; subst. apply shape_refl. }
+    rewrite (bind_ok _ _ _ _ _ (cls_of_at ct s c k Hc)) in Hrun.
+    destruct (lookup_cls_In _ _ _ Hc) as [Hkin _].
+    assert (Hlb : l < b) by (apply nth_error_Some; unfold h0; congruence).
+    destruct (negb (false || initializing d) && c_frozen k).
+    { rewrite bind_err with (e := FrozenErr) (s1 := s) in Hrun by reflexivity. inversion Hrun; subst. apply shape_refl. }
+    rewrite bind_ret_l' in Hrun. change (if false then None else lookup_attr k a) with (lookup_attr k a) in Hrun.
+    destruct (lookup_attr k a) as [sp|] eqn:Ea.
+    2:{ eapply (del_tail_shape rec b h0 l a c d k false); eauto. }
+    assert (Hspok : spec_ok b NoA sp) by (eapply lookup_attr_ok; eauto using NoA_table).
+    destruct (lookup_default_value_sep ct no_dnc b NoA NoW h0 (NoA_closed' b h0) (NoA_table b) (NoA_dnc' b h0)
+                rec (exec_sep39 b h0) sp k Hspok s I0) as [I1 F1].
+    unfold bind at 1 in Hrun.
+    destruct (lookup_default_value ct rec sp k s) as [[dv|e] s0] eqn:Ed; simpl in I1, F1.
+    2:{ inversion Hrun; subst. exists s'. split; [exact I1|left; reflexivity]. }
+    destruct (is_missing dv).
+    - eapply (del_tail_shape rec b h0 l a c d k false); eauto.
+    - eapply (prep_write_shape rec b h0 l a c d k); eauto.
+      apply (prepare_attr_value_sep ct b NoA NoW h0 (NoA_closed' b h0) rec (exec_sep39 b h0) sp l dv None);
+        [exact Hspok|now apply freshv_okv|exact I].
+  Qed.
+
+  (* obj.with_<a>(<scalar>, _inplace=True) and obj.reset_<a>(_inplace=True) *)
+  Definition inplace_helper_ok (hp : helper) : Prop :=
+    match hp with
+    | HWith a | HReset a => forall k, In k ct -> no_dependants k a
+    | _ => False
+    end.
+
+  Lemma helper_inplace_shape l hp h s r s' :
+    h_inplace h = true -> inplace_helper_ok hp ->
+    Forall val_nonref (h_pos h) -> h_kw h = None ->
+    run_helper ct l hp h s = (r, s') -> inplace_shape l s s'.
+  Proof.
+    intros Hi Hhp Hpos Hkw Hrun. unfold run_helper in Hrun.
+    destruct (negb (h_if h)); [inversion Hrun; subst; apply shape_refl|].
+    destruct hp; simpl in Hhp; try contradiction.
+    - (* with_<a> *)
+      set (h0 := heap s). set (b := length h0).
+      assert (I0 : sinv b NoA NoW h0 s) by (apply sinv_start; reflexivity).
+      unfold spec_for in Hrun.
+      destruct (nth_error (heap s) l) as [o|] eqn:Hl.
+      2:{ unfold read_inst, bind, read in Hrun. rewrite Hl in Hrun. inversion Hrun; subst. apply shape_refl. }
+      destruct o as [| | |c d];
+        try (unfold read_inst, bind, read in Hrun; rewrite Hl in Hrun; inversion Hrun; subst; apply shape_refl).
+      unfold bind at 1 2 in Hrun. rewrite (read_inst_at l s c d Hl) in Hrun. cbn [fst snd] in Hrun.
+      destruct (lookup_cls ct c) as [k|] eqn:Hc.
+      2:{ unfold cls_of, bind in Hrun. rewrite Hc in Hrun. inversion Hrun; subst. apply shape_refl. }
+      unfold bind at 1 in Hrun. rewrite (cls_of_at ct s c k Hc) in Hrun.
+      destruct (lookup_attr k a) as [sp|] eqn:Ea; [|inversion Hrun; subst; apply shape_refl].
+      cbn [ret snd] in Hrun. rewrite Hi, Hkw in Hrun. unfold with_attr in Hrun.
+      destruct (lookup_cls_In _ _ _ Hc) as [Hkin _]. destruct (lookup_attr_In _ _ _ Ea) as [_ Hname].
+      rewrite Hname in Hrun.
+      eapply (prep_write_shape (exec ct XFUEL) b h0 l a c d k); eauto.
+      + apply nth_error_Some. unfold h0. congruence.
+      + apply (prepare_attr_value_sep ct b NoA NoW h0 (NoA_closed' b h0) (exec ct XFUEL) (exec_sepX b h0) sp l (pos0 h) None);
+          [eapply lookup_attr_ok; eauto using NoA_table| |exact I].
+        apply nonref_okv. unfold pos0. destruct (nth_in_or_default 0 (h_pos h) VMissing) as [Hin|E0]; [|rewrite E0; exact I].
+        rewrite Forall_forall in Hpos. auto.
+    - (* reset_<a> *)
+      rewrite Hi in Hrun. cbn [negb] in Hrun. rewrite bind_ret_l' in Hrun.
+      unfold bind at 1 in Hrun.
+      destruct (thawed ct l false (exec ct XFUEL (KDelAttr l a false false)) s) as [r1 s1] eqn:E.
+      assert (Hs : s' = s1) by (destruct r1; inversion Hrun; auto). subst s1.
+      unfold thawed in E. unfold bind at 1 in E. unfold read in E.
+      destruct (nth_error (heap s) l) as [o|] eqn:Hl; [|inversion E; subst; apply shape_refl].
+      destruct o as [| | |c0 d0]; try (eapply delattr_inplace_shape; eauto; fail).
+      unfold bind at 1 in E. unfold cls_of in E. destruct (lookup_cls ct c0); [|inversion E; subst; apply shape_refl].
+      cbn [negb orb] in E. eapply delattr_inplace_shape; eauto.
   Qed.
 
   (* ---------- the alphabet ---------- *)
@@ -169,16 +314,24 @@ Section Peers.
     match o with
     | OpConstruct _ pos kw => kw_nu kw /\ match pos with Some v => val_nonref v /\ nu v | None => True end
     | OpSetAttr x a v => In x T /\ val_nonref v /\ (forall k, In k ct -> no_dependants k a)
-    | OpDelAttr _ _ => False
-    | OpHelper _ hp h =>
-        h_inplace h = false /\ Forall val_nonref (h_pos h) /\ val_nonref (h_index h) /\
-        match h_kw h with Some kw => Forall (fun p => val_nonref (snd p)) kw | None => True end /\
-        h_kwfn h = [] /\ ofn_scalar (h_fn h) /\ plain_top_transform hp h
+    | OpDelAttr x a => In x T /\ (forall k, In k ct -> no_dependants k a)
+    | OpHelper x hp h =>
+        if h_inplace h
+        then In x T /\ inplace_helper_ok hp /\ Forall val_nonref (h_pos h) /\ h_kw h = None
+        else Forall val_nonref (h_pos h) /\ val_nonref (h_index h) /\
+             match h_kw h with Some kw => Forall (fun p => val_nonref (snd p)) kw | None => True end /\
+             h_kwfn h = [] /\ ofn_scalar (h_fn h) /\ plain_top_transform hp h
     | OpDeepCopy _ => True
     | OpAlloc ob => refs_of ob = []
     end.
 
-  Definition is_set (o : op) : bool := match o with OpSetAttr _ _ _ => true | _ => false end.
+  (* operations writing their receiver in place *)
+  Definition is_set (o : op) : bool :=
+    match o with
+    | OpSetAttr _ _ _ | OpDelAttr _ _ => true
+    | OpHelper _ _ h => h_inplace h
+    | _ => false
+    end.
 
   Lemma peer_op_sound T roots o b :
     peer_op_ok T o -> is_set o = false -> op_ok ct b NoA NoW roots o.
@@ -187,14 +340,40 @@ Section Peers.
     - destruct H as [_ Hp]. split.
       + intros a v _. right. apply dncname_false.
       + destruct pos as [v|]; auto. destruct Hp. now apply nonref_okv.
-    - destruct H as (Hi & Hpos & Hidx & Hkw & Hkwfn & Hfn & Hplain). split.
+    - rewrite Hs in H. destruct H as (Hpos & Hidx & Hkw & Hkwfn & Hfn & Hplain). split.
       + split; [now apply nonref_Forall|]. split; [now apply nonref_okv|]. split.
         * destruct (h_kw h) as [kw|]; simpl; auto. unfold kw_okv. eapply Forall_impl; [|exact Hkw].
           intros p Hp. unfold fok. now apply nonref_okv.
         * split; [rewrite Hkwfn; apply ats_ok_nil|now apply ofn_scalar_ok].
-      + intros l _. split; [rewrite Hi; discriminate|].
+      + intros l _. split; [rewrite Hs; discriminate|].
         destruct hp; auto; first [left; apply dncname_false | right; exact Hplain].
     - apply obj_ok_of_refs. rewrite H. intros l [].
+  Qed.
+
+  (* an in-place operation of the alphabet: nothing happened, or the receiver is a tracked root and
+     the step has the shape above *)
+  Lemma inplace_step_shape T roots o s r s' :
+    peer_op_ok T o -> is_set o = true -> step ct roots o s = (r, s') ->
+    exists x, In x T /\
+      (s' = s \/ exists lx, nth x roots VNone = VRef lx /\ inplace_shape lx s s').
+  Proof.
+    destruct o; simpl; intros Hok Hs Hrun; try discriminate.
+    - destruct Hok as (Hx & Hv & Hnd). exists x. split; [exact Hx|]. unfold bind in Hrun.
+      destruct (nth x roots VNone) as [| | | |b0|z0|z0|z0|lx] eqn:Ex; try (simpl in Hrun; inversion Hrun; auto; fail).
+      simpl loc_of in Hrun. cbn [ret] in Hrun.
+      destruct (exec ct XFUEL (KSetAttr lx a v false false) s) as [r0 s2] eqn:E.
+      assert (Hs2 : s' = s2) by (destruct r0; inversion Hrun; auto). subst s2.
+      right. exists lx. split; [reflexivity|]. eapply setattr_inplace_shape; eauto.
+    - destruct Hok as (Hx & Hnd). exists x. split; [exact Hx|]. unfold bind in Hrun.
+      destruct (nth x roots VNone) as [| | | |b0|z0|z0|z0|lx] eqn:Ex; try (simpl in Hrun; inversion Hrun; auto; fail).
+      simpl loc_of in Hrun. cbn [ret] in Hrun.
+      destruct (exec ct XFUEL (KDelAttr lx a false false) s) as [r0 s2] eqn:E.
+      assert (Hs2 : s' = s2) by (destruct r0; inversion Hrun; auto). subst s2.
+      right. exists lx. split; [reflexivity|]. eapply delattr_inplace_shape; eauto.
+    - rewrite Hs in Hok. destruct Hok as (Hx & Hhp & Hpos & Hkw). exists x. split; [exact Hx|]. unfold bind in Hrun.
+      destruct (nth x roots VNone) as [| | | |b0|z0|z0|z0|lx] eqn:Ex; try (simpl in Hrun; inversion Hrun; auto; fail).
+      simpl loc_of in Hrun. cbn [ret] in Hrun.
+      right. exists lx. split; [reflexivity|]. eapply helper_inplace_shape; eauto.
   Qed.
 
   (* ---------- the invariant ---------- *)
@@ -216,6 +395,9 @@ Section Peers.
   Lemma nth_new (roots : list val) v : nth (length roots) (roots ++ [v]) VNone = v.
   Proof. rewrite app_nth2 by lia. rewrite Nat.sub_diag. reflexivity. Qed.
 
+  Lemma track_set n T o : is_set o = true -> track n T o = T.
+  Proof. destruct o; simpl; auto; discriminate. Qed.
+
   Theorem peer_step s roots T o fa r s' :
     PD s roots T -> wf_heap (heap s) -> peer_op_ok T o ->
     step ct roots o (mkst (heap s) 0 fa) = (r, s') ->
@@ -225,45 +407,40 @@ Section Peers.
     set (s0 := mkst (heap s) 0 fa) in *. set (h0 := heap s). set (b := length h0).
     assert (I0 : sinv b NoA NoW h0 s0) by (apply sinv_start; reflexivity).
     destruct (is_set o) eqn:Eset.
-    - (* obj.a = scalar on a tracked instance *)
-      destruct o; try discriminate. simpl in Hok. destruct Hok as (Hx & Hv & Hnd). simpl track.
-      simpl in Hrun. unfold bind in Hrun.
-      destruct (nth x roots VNone) as [| | | |b0|z0|z0|z0|lx] eqn:Ex;
-        try (simpl in Hrun; inversion Hrun; subst r s'; simpl;
-             (split; [intros y Hy; rewrite app_length; specialize (P1 y Hy); lia|]);
-             (split; [intros y l Hy; rewrite nth_old by auto; apply P2; auto|]);
-             (split; [intros y1 y2 l1 l2 H1 H2; rewrite !nth_old by auto; apply P3; auto|]);
-             intros y1 y2 l1 l2 z H1 H2; rewrite !nth_old by auto; apply P4; auto; fail).
-      simpl loc_of in Hrun. cbn [ret] in Hrun.
-      destruct (exec ct XFUEL (KSetAttr lx a v false false) s0) as [r0 s2] eqn:E.
-      assert (Hs2 : s' = s2) by (destruct r0; inversion Hrun; auto). subst s2.
-      destruct (setattr_inplace_shape lx a v s0 r0 s' Hv Hnd E) as (s1 & I1 & Hshape).
+    - (* in-place writes on a tracked instance *)
+      rewrite (track_set _ _ _ Eset).
+      destruct (inplace_step_shape T roots o s0 r s' Hok Eset Hrun) as (x & Hx & Hcase).
+      assert (Hsame : heap s' = h0 ->
+                PD s' (roots ++ [resv r]) T).
+      { intro Hh. split; [intros y Hy; rewrite app_length; specialize (P1 y Hy); lia|].
+        split; [intros y l Hy; rewrite nth_old by auto; rewrite Hh; apply P2; auto|].
+        split; [intros y1 y2 l1 l2 H1 H2; rewrite !nth_old by auto; apply P3; auto|].
+        intros y1 y2 l1 l2 z H1 H2; rewrite !nth_old by auto; rewrite Hh; apply P4; auto. }
+      destruct Hcase as [->|(lx & Ex & (s1 & I1 & Hshape))]; [apply Hsame; reflexivity|].
       change (heap s0) with h0 in I1, Hshape. fold b in I1, Hshape.
       assert (Hlx : lx < b) by (apply (P2 x lx Hx Ex)).
       destruct I1 as (L1 & Old1 & Cl1).
       assert (Hlen : b <= length (heap s')).
-      { destruct Hshape as [->|(c & d & value & _ & _ & ->)]; [exact L1|]. unfold upd. simpl. rewrite set_nth_length. exact L1. }
+      { destruct Hshape as [->|(c & d & d' & _ & -> & _)]; [exact L1|]. unfold upd. simpl. rewrite set_nth_length. exact L1. }
       assert (Same : forall l, l < b -> l <> lx -> nth_error (heap s') l = nth_error h0 l).
       { intros l Hl Hne. destruct (Old1 l Hl) as [[]|E1].
-        destruct Hshape as [->|(c & d & value & _ & _ & ->)]; [exact E1|].
+        destruct Hshape as [->|(c & d & d' & _ & -> & _)]; [exact E1|].
         unfold upd. simpl. rewrite set_nth_other by auto. exact E1. }
-      assert (Closed : forall l o y, b <= l -> nth_error (heap s') l = Some o -> In y (refs_of o) -> b <= y).
-      { intros l o y Hl Hn Hin.
-        assert (Hn1 : nth_error (heap s1) l = Some o).
-        { destruct Hshape as [->|(c & d & value & _ & _ & ->)]; [exact Hn|].
+      assert (Closed : forall l o0 y, b <= l -> nth_error (heap s') l = Some o0 -> In y (refs_of o0) -> b <= y).
+      { intros l o0 y Hl Hn Hin.
+        assert (Hn1 : nth_error (heap s1) l = Some o0).
+        { destruct Hshape as [->|(c & d & d' & _ & -> & _)]; [exact Hn|].
           unfold upd in Hn. simpl in Hn. rewrite set_nth_other in Hn by lia. exact Hn. }
-        destruct (obj_ok_refs b NoA o y (Cl1 l o Hl Hn1) Hin) as [H|[]]. exact H. }
+        destruct (obj_ok_refs b NoA o0 y (Cl1 l o0 Hl Hn1) Hin) as [H|[]]. exact H. }
       assert (Upd : forall o' y, nth_error (heap s') lx = Some o' -> In y (refs_of o') ->
-                      b <= y \/ exists o, nth_error h0 lx = Some o /\ In y (refs_of o)).
+                      b <= y \/ exists o0, nth_error h0 lx = Some o0 /\ In y (refs_of o0)).
       { intros o' y Hn Hin. destruct (Old1 lx Hlx) as [[]|E1].
-        destruct Hshape as [->|(c & d & value & Hl1 & Hval & ->)].
+        destruct Hshape as [->|(c & d & d' & Hl1 & -> & Hrefs)].
         - right. exists o'. rewrite <- E1. auto.
         - unfold upd in Hn. simpl in Hn.
           rewrite nth_error_set_nth_same in Hn by (apply nth_error_Some; congruence). inversion Hn; subst o'.
-          simpl in Hin. destruct (vrefs_assoc_set a value d y Hin) as [->|Hd].
-          + destruct Hval as [H|[]]. left; exact H.
-          + right. exists (OInst c d). rewrite <- E1. split; [exact Hl1|exact Hd]. }
-      assert (Hres : resv r = VNone) by (destruct r0; inversion Hrun; reflexivity). rewrite Hres.
+          simpl in Hin. destruct (Hrefs y Hin) as [H|Hd]; [left; exact H|].
+          right. exists (OInst c d). rewrite <- E1. split; [exact Hl1|exact Hd]. }
       split; [intros y Hy; rewrite app_length; specialize (P1 y Hy); lia|].
       split; [intros y l Hy; rewrite nth_old by auto; intro Hl; specialize (P2 y l Hy Hl); fold h0 in P2; fold b in P2; lia|].
       split; [intros y1 y2 l1 l2 H1 H2; rewrite !nth_old by auto; apply P3; auto|].
@@ -452,4 +629,26 @@ Proof.
   - simpl. unfold no_dependants. repeat split; auto; try (constructor; fail); try (repeat constructor; fail).
     intros k [<-|[]]. reflexivity.
   - split; [vm_compute; reflexivity|]. vm_compute. split; reflexivity.
+Qed.
+
+(* ... then, in place: del p.xs; p.with_n(4, _inplace=True); q.reset_x(_inplace=True) *)
+Definition exp_ops2 : list (op * option nat) :=
+  exp_ops ++
+  [(OpDelAttr 1 50, None);
+   (OpHelper 1 (HWith 51) (mkh [VInt 4] true true VMissing false None None [] None), None);
+   (OpHelper 2 (HReset 50) (mkh [] true true VMissing false None None [] None), None)].
+
+Example peers_disjoint_inplace_nonvacuous :
+  ops_ok exp_ct 1 [] exp_ops2 /\
+  run_wfb exp_ct (mkst [OList [VInt 1]] 0 None) [VRef 0] exp_ops2 = true /\
+  (let '(s', roots') := run_ops exp_ct (mkst [OList [VInt 1]] 0 None) [VRef 0] exp_ops2 in
+   roots' = [VRef 0; VRef 1; VRef 3; VNone; VRef 5; VRef 8; VNone; VRef 1; VRef 3] /\
+   nth_error (heap s') 1 = Some (OInst 2 [(50, VRef 10); (51, VInt 4)]) /\
+   nth_error (heap s') 3 = Some (OInst 2 [(50, VRef 11); (51, VInt 3)]) /\
+   nth_error (heap s') 0 = Some (OList [VInt 1])).
+Proof.
+  split.
+  - simpl. unfold no_dependants. repeat split; auto; try (constructor; fail); try (repeat constructor; fail);
+      try (intros k [<-|[]]; reflexivity).
+  - split; [vm_compute; reflexivity|]. vm_compute. repeat split; reflexivity.
 Qed.
